@@ -41,6 +41,7 @@ Decided (DESIGN.md section 5, C12):
  (+) L1-special-members-memberwise   every user-written move / copy constructor, assignment and swap of the index / mapping classes takes over
                                       (or exchanges) every data member of its record (member list from the record facts) on every path
      L2-moved-from-mapping-invalidated a move out of a MemoryMapping resets, after the transfer, the member the munmap() guard reads
+     P1-reserve-only-changes-capacity reserve() of a map / of the mmap vector only pre-allocates: no call that can change size() or the contents
  (6) E1-mmap-oserror-reaches-throw    ERRDISC on mmap / mremap / munmap / fstat / ftruncate / open / tmpfile / dup in the index and
                                       memory-mapping layer (is_valid() is inlined for the evaluation)
  (+) V1-mmap-vector-growth-filled-empty   every growth of an mmap_vector (constructors, reserve) fills [old extent, new extent) with
@@ -1503,6 +1504,48 @@ def file_backed_rules(fb, R):
         R.broken('no file-backed mmap() call found in %s' % MM)
 
 
+# ------------------------------------------------------------------------------------------------ reserve() is not observable
+
+CAPACITY_ONLY = ('reserve',)
+
+
+def reserve_rules(fb, R, classes):
+    """P1: reserve() of a map (and of the mmap vector it forwards to) may change the capacity of its storage, never its size or contents:
+    the sparse maps do not override it at all, so anything observable here makes the dense maps disagree with them."""
+    rule = 'P1-reserve-only-changes-capacity'
+    n_ = 0
+    for cls in list(classes) + [MMV]:
+        rec = next((r for r in fb.records_named(cls) if r.fields), None)
+        size_names = {f['name'] for f in rec.fields if f['tC'] in ('unsigned long', 'std::size_t')} if rec is not None and cls == MMV else set()
+        for fn in [f for f in _methods(fb, cls) if f.name == 'reserve']:
+            n_ += 1
+            bad = None
+            for m in U._mutators(fb, fn):
+                x = fn.nodes[m]
+                if x.get('k') == 'call':
+                    nm = x.get('q', '').rsplit('::', 1)[-1]
+                    if nm in CAPACITY_ONLY and (U.is_vector_like(x) or x.get('rcls', '').startswith('osmium::detail::mmap_vector')):
+                        continue
+                    if cls == MMV and x.get('rcls', '').endswith('TypedMemoryMapping') and nm == 'resize':
+                        continue    # growing the mapping is the capacity change of the mmap vector
+                    bad = (m, 'calls %s' % x.get('q'))
+                elif cls == MMV and x.get('k') in ('assign', 'unop'):
+                    t_ = x['lhs'] if x.get('k') == 'assign' else x['sub']
+                    if any(fn.is_this_member(t_, s_) for s_ in size_names):
+                        bad = (m, 'changes the element count')
+                else:
+                    bad = (m, 'modifies a member')
+            # calls of size-changing methods on this itself
+            for x in fn.all_nodes():
+                if x.get('k') == 'call' and x.get('rcls') == cls and x.get('q', '').rsplit('::', 1)[-1] in ('resize', 'clear', 'push_back', 'shrink_to_fit', 'set'):
+                    bad = (x['id'], 'calls %s' % x['q'])
+            R.check(bad is None, rule, fn.q + '#capacity-only', fn.site if bad is None else fn.loc(bad[0]),
+                    '%s %s: reserve() must only pre-allocate (std::vector::reserve / mmap_vector_base::reserve); changing size() or the contents makes '
+                    'ids stored before the call unreadable in the dense maps only' % (fn.q, bad[1] if bad else ''))
+    if n_ == 0:
+        R.broken('no reserve() override found in the map classes')
+
+
 # ------------------------------------------------------------------------------------------------ LAYOUT: special members
 
 # members deliberately not transferred member-wise: {(class, kind, field): reason}
@@ -1588,6 +1631,7 @@ def all_rules(fb, R):
     factory_rules(fb, R)
     file_backed_rules(fb, R)
     special_member_rules(fb, R, classes)
+    reserve_rules(fb, R, classes)
     errdisc_rules(fb, R, classes)
 
 
@@ -1621,6 +1665,7 @@ def run(ctx):
     R.expect('T1-registration-table', 50)           # 16 rows x (unique, denotes) + 8 agree + 8 register_map + factory create / register
     R.expect('L1-special-members-memberwise', 10)    # MemoryMapping move constructor + move assignment x 5 members
     R.expect('L2-moved-from-mapping-invalidated', 3)   # move constructor, move assignment (+ releases its own mapping first)
+    R.expect('P1-reserve-only-changes-capacity', 2)   # VectorBasedDenseMap::reserve, mmap_vector_base::reserve
     R.expect('O1-index-file-open-keeps-contents', 1)   # create_map_with_fd
     R.expect('M1-file-grown-before-mapping', 2)       # MemoryMapping constructor, resize (file branch)
     R.expect('E1-mmap-oserror-reaches-throw', 9)    # mmap x2, mremap, munmap, fstat, ftruncate, open, tmpfile, dup
@@ -1636,6 +1681,7 @@ def _selftest_maps(fb, R):
     mmap_vector_rules(fb, R)
     file_backed_rules(fb, R)
     special_member_rules(fb, R, classes)
+    reserve_rules(fb, R, classes)
 
 
 SELFTESTS = [(r, 'c12_maps.cpp', _selftest_maps) for r in (
@@ -1644,4 +1690,4 @@ SELFTESTS = [(r, 'c12_maps.cpp', _selftest_maps) for r in (
     'F3-flexmem-mode-dispatch', 'N1-way-sorts-before-lookup', 'N2-flag-set-on-descent', 'N3-last-id-sentinel-reset',
     'N4-sign-routing-agrees', 'V1-mmap-vector-growth-filled-empty', 'V2-mmap-vector-size-within-capacity',
     'O1-index-file-open-keeps-contents', 'M1-file-grown-before-mapping', 'L1-special-members-memberwise',
-    'L2-moved-from-mapping-invalidated')]
+    'L2-moved-from-mapping-invalidated', 'P1-reserve-only-changes-capacity')]
